@@ -67,10 +67,11 @@ def targeted(n=2):
     }}
 
 
-def collector(nw=2, expected=("A", "A"), arrivals=3, retry_after=False, hold=False):
+def collector(nw=2, expected=("A", "A"), arrivals=3, retry_after=False, hold=False, forward=False):
     """a sends `arrivals` events of the expected types to the collecting step c (nw workers).
     hold: the collecting step calls collect_events at once and is still running (gate after the call) while the
-    results of its sibling invocations are applied."""
+    results of its sibling invocations are applied.
+    forward: the invocation that gets the full set passes it on with ctx.send_event and returns None."""
     tys = list(expected)
     body_a = []
     cnt = {}
@@ -82,7 +83,8 @@ def collector(nw=2, expected=("A", "A"), arrivals=3, retry_after=False, hold=Fal
     body_a += [G, {"op": "none"}]
     c = {"accepts": sorted(set(tys)), "nw": nw,
          "body": ([{"op": "collect", "expected": tys, "hold": True}] if hold else [G, {"op": "collect", "expected": tys}]) +
-                 [{"op": "fail", "until": 1 if retry_after else 0}, {"op": "ret", "ty": "C"}]}
+                 [{"op": "fail", "until": 1 if retry_after else 0}] +
+                 ([{"op": "send", "ty": "C", "n": 1}, {"op": "none"}] if forward else [{"op": "ret", "ty": "C"}])}
     if retry_after:
         c["retry"] = {"max": 2, "wait": ["fixed", 0]}
     return {"timeout": None, "steps": {
@@ -303,6 +305,8 @@ def family(name, quick=True):
             out.append(("collector(nw=%d,%s,%d,retry_after=%s)" % (nw, "".join(exp), arr, ra), collector(nw, exp, arr, ra), []))
         for (nw, exp, arr) in [(2, ("A", "B", "C"), 3), (2, ("A", "A", "B"), 3)] + ([] if quick else [(3, ("A", "B", "C"), 3), (3, ("A", "A", "B"), 6), (2, ("A", "B", "C"), 6)]):
             out.append(("collector_hold(nw=%d,%s,%d)" % (nw, "".join(exp), arr), collector(nw, exp, arr, False, hold=True), []))
+        for (nw, exp, arr) in [(1, ("A", "A"), 4), (2, ("A", "B"), 4)] + ([] if quick else [(2, ("A", "A"), 6), (1, ("A", "B"), 6)]):
+            out.append(("collector_forward(nw=%d,%s,%d)" % (nw, "".join(exp), arr), collector(nw, exp, arr, False, forward=True), []))
     elif name == "ask":
         out.append(("ask", ask(), [("Resp", None)]))
         out.append(("ask_consumed", ask_consumed(), []))
